@@ -153,7 +153,12 @@ def with_refs(doc, rng):
     defs["Ping"] = {"type": "object", "properties": {"pong": {"$ref": "#/definitions/Pong"}}}
     defs["Pong"] = {"type": "object", "properties": {"ping": {"$ref": "#/definitions/Ping"}}}
     defs["Leaf"] = {"type": "integer"}
-    tgt = lambda: rng.choice(["Node", "Ping", "Pong", "Leaf"])
+    # the vendor extensions code generators commonly put on schemas, with their usual values: they must stay what they are
+    defs["Leaf"].update({"x-nullable": True, "x-omitempty": False, "x-go-name": "Leaf", "x-order": 1, "x-isnullable": True})
+    defs["Node"]["properties"]["v"].update({"x-nullable": True, "x-go-name": "V"})
+    defs["Tagged"] = {"type": "object", "x-nullable": True, "x-go-type": {"type": "T", "import": {"package": "p"}}, "additionalProperties": True,
+                      "properties": {"a": {"type": "string", "x-nullable": False}}}
+    tgt = lambda: rng.choice(["Node", "Ping", "Pong", "Leaf", "Tagged"])
     sch = lambda: rng.choice([lambda: {"$ref": "#/definitions/" + tgt()},
                               lambda: {"type": "array", "items": {"$ref": "#/definitions/" + tgt()}},
                               lambda: {"allOf": [{"$ref": "#/definitions/" + tgt()}, {"type": "object"}]}])()
